@@ -6,8 +6,10 @@
 // no role on kg1).  Each submits, through Handler::execute_program with knowledge graph kg1, programs built from
 //   7 state-changing statements (insert, bulk insert, delete, conditional delete, persistent rule, rule/relation drop,
 //   schema declaration)
-// wrapped in 9 program shapes (alone; after a query line; before a query line; after a comment line; after a blank
-// line and a comment; after a session rule; two writes; with leading whitespace; continuation-line form).
+// wrapped in 14 program shapes (alone; after a query line; before a query line; after a comment line; after a blank
+// line and a comment; after a session rule; two writes; with leading whitespace; continuation-line form; after a query
+// with a trailing comment; after `.status`, `.rel list`, `.kg use kg1`; after a continuation-line rule with a comment).
+// plus `e2` (global editor, KG editor on kg2, no role on kg1): 7 writes x 3 programs that `.kg use kg1` from target kg2.
 // C27: none of these users may write kg1 — after every request the knowledge graph's base tuples, persistent rules
 //      and schemas must be what they were (whether or not the request reports an error).
 //      Control: a user with the KG editor role (`ee`) must be able to run the same single statements.
@@ -53,6 +55,10 @@ async fn va_run(check_c27: bool, check_c29: bool) {
     handler.handle_kg_acl_grant("kg1", "vv", "viewer").expect("grant vv");
     handler.handle_kg_acl_grant("kg1", "ev", "viewer").expect("grant ev");
     handler.handle_kg_acl_grant("kg1", "ee", "editor").expect("grant ee");
+    // `e2`: global editor, KG editor on a second graph kg2, no role on kg1
+    handler.query_program(Some("kg2".to_string()), "+k2[(1,)]".to_string()).await.expect("kg2 content");
+    handler.handle_user_create("e2", "pw-e2-12345", "editor").expect("create e2");
+    handler.handle_kg_acl_grant("kg2", "e2", "editor").expect("grant e2");
     let users = [va_id("vv", Role::Viewer), va_id("ev", Role::Editor), va_id("en", Role::Editor)];
     let writes: [&str; 7] = [
         "+r1(7)", "+r3[(5, 6), (7, 8)]", "-r1(2)", "-r1(X) <- r1(X), X > 2", "+d2(X, Y) <- r2(X, Y), r1(X)", "-d1", "+s2(a: int, b: string)",
@@ -67,6 +73,12 @@ async fn va_run(check_c27: bool, check_c29: bool) {
         Box::new(|w, w2| format!("{w}\n{w2}")),
         Box::new(|w, _| format!("   {w}")),
         Box::new(|w, _| format!("?r1(X),\n   X > 1\n{w}")),
+        // first lines after which the statement parser ignores the rest of the text (trailing comment, meta commands)
+        Box::new(|w, _| format!("?r1(X) // c\n{w}")),
+        Box::new(|w, _| format!(".status\n{w}")),
+        Box::new(|w, _| format!(".rel list\n{w}")),
+        Box::new(|w, _| format!(".kg use kg1\n{w}")),
+        Box::new(|w, _| format!("tmp(X) <- r1(X), // c\n   X > 1\n{w}")),
     ];
     let mut cases = 0usize;
     let initial = va_state(&handler, "kg1");
@@ -84,6 +96,22 @@ async fn va_run(check_c27: bool, check_c29: bool) {
                         u.username, u.role, if u.username == "en" { "no role" } else { "KG viewer" }, prog,
                         if r.is_ok() { "request accepted" } else { "request reported an error" }));
                     break 'outer;   // the shared knowledge graph is no longer in its initial state
+                }
+            }
+        }
+    }
+    // graph switches: `e2` may write kg2 but has no role on kg1; a `.kg use kg1` inside its program must not let it write kg1
+    if va_state(&handler, "kg1") == initial {
+        let e2 = va_id("e2", Role::Editor);
+        'sw: for w in writes.iter() {
+            for prog in [format!(".kg use kg1\n{w}"), format!("+k2(5)\n.kg use kg1\n{w}"), format!("// switch\n.kg use kg2\n.kg use kg1\n{w}\n.kg use kg2")] {
+                cases += 1;
+                let r = handler.execute_program(None, Some("kg2".to_string()), prog.clone(), Some(&e2)).await;
+                let after = va_state(&handler, "kg1");
+                if after != initial {
+                    vw_report(format!("C27: user `e2` (global Editor, KG editor on kg2, no role on kg1) submitted program {:?} with target kg2 and kg1 changed ({}): before {initial} after {after}",
+                        prog, if r.is_ok() { "request accepted" } else { "request reported an error" }));
+                    break 'sw;
                 }
             }
         }
@@ -111,6 +139,9 @@ async fn va_run(check_c27: bool, check_c29: bool) {
         format!(".kg use {internal}"), format!(".kg drop {internal}"), format!(".kg create {internal}"),
         format!("?r1(X)\n.kg use {internal}\n?users(A, B, C)"), format!("// c\n.kg use {internal}\n+users(\"mallory\", \"x\", \"admin\")"),
         format!(".kg use {internal}\n+kg_acls(\"kg1\", \"vv\", \"owner\")"), format!("\n.kg drop {internal}\n"),
+        format!(".status\n.kg use {internal}\n?users(A, B, C)"), format!(".status\n.kg use {internal}\n?users(A, B, C, D)"),
+        format!("?r1(X) // c\n.kg use {internal}\n+users(\"mallory\", \"x\", \"admin\")"), format!(".kg list\n.kg use {internal}\n?kg_acls(A, B, C)"),
+        format!(".rel list\n.kg drop {internal}"),
     ];
     for u in &users {
         for p in &progs_internal_target {
